@@ -23,6 +23,7 @@ CONSTANTS
   RetOwned,      \* [Method -> BOOLEAN] output is an owned value (single-use semantics apply)
   Required,      \* methods a default body may call on its delegator (required methods of the trait)
   HasMutexApi,   \* feature set has a mutex (std or spin-lock)
+  HasStd,        \* std feature: teardown can ask std::thread::panicking(); without it the instance remembers that it panicked
   MaxCalls       \* bound on top-level calls
 
 VARIABLES
@@ -33,12 +34,13 @@ VARIABLES
   ordIdx,   \* ordered calls made so far
   taken,    \* set of <<m, i, seg>>: single-use values already moved out
   reasons,  \* sequence of mock-induced error classes (shared panic_reasons)
+  origp,    \* (no_std) the original instance itself induced a panic: its verification is disabled
   phase,    \* "run" | "done" | "newerr"
   hist,     \* observation: the steps so far with their outcomes
   ncalls    \* number of top-level calls made (bound)
 
-vars == <<cfg, tab, newErr, count, ordIdx, taken, reasons, phase, hist, ncalls>>
-state == [count |-> count, ordIdx |-> ordIdx, taken |-> taken, reasons |-> reasons]
+vars == <<cfg, tab, newErr, count, ordIdx, taken, reasons, origp, phase, hist, ncalls>>
+state == [count |-> count, ordIdx |-> ordIdx, taken |-> taken, reasons |-> reasons, origp |-> origp]
 
 Zero(t) == [m \in DOMAIN t |-> [i \in PatIx(t, m) |-> 0]]
 
@@ -124,25 +126,28 @@ DispRec(st, m, a, r) ==
 (*  up = it then panics itself (a user panic, not recorded by the mock).   *)
 (* Result: [st, log, out]; log = what user code observed, in order.        *)
 (***************************************************************************)
-RECURSIVE EvalCall(_, _), RunScript(_, _, _, _, _)
-EvalCall(st, node) ==
+\* onOrig: the call is made on the instance the test holds (top level, or from an answer / real function,
+\* which receive that instance); calls a default body makes go through the delegation helper (a clone)
+RECURSIVE EvalCallOn(_, _, _), RunScript(_, _, _, _, _, _)
+EvalCallOn(st, node, onOrig) ==
   LET r  == Dispatch(st, node.m, node.a)
       dr == DispRec(st, node.m, node.a, r) IN
-  CASE r.d.k = "panic" ->                                          \* induce_panic: push, then panic
-         [st |-> [r.st EXCEPT !.reasons = Append(@, r.d.class)], log |-> <<>>, out |-> r.d, disp |-> <<dr>>]
+  CASE r.d.k = "panic" ->                                          \* induce_panic: (no_std: set the instance's flag,) push, then panic
+         [st |-> [r.st EXCEPT !.reasons = Append(@, r.d.class), !.origp = @ \/ onOrig], log |-> <<>>, out |-> r.d, disp |-> <<dr>>]
     [] r.d.k = "ret" -> [st |-> r.st, log |-> <<>>, out |-> r.d, disp |-> <<dr>>]
     [] OTHER ->
          LET ev == [e |-> "run", who |-> r.d.who, m |-> node.m, a |-> node.a, id |-> r.d.seg]
-             b  == RunScript(r.st, node.sc, 1, <<ev>>, <<dr>>) IN
+             b  == RunScript(r.st, node.sc, 1, <<ev>>, <<dr>>, onOrig /\ r.d.who # "default") IN
          IF b.out.k = "panic" THEN [st |-> b.st, log |-> b.log, out |-> b.out, disp |-> b.disp]     \* a nested panic unwinds through
          ELSE IF node.up THEN [st |-> b.st, log |-> b.log, out |-> PanicU, disp |-> b.disp]
          ELSE [st |-> b.st, log |-> b.log, disp |-> b.disp,
                out |-> Ret(IF r.d.who = "answer" THEN r.d.seg ELSE IF r.d.who = "real" THEN RealId(node.m) ELSE DfltId(node.m), 0)]
-RunScript(st, sc, j, log, disp) ==
+RunScript(st, sc, j, log, disp, onOrig) ==
   IF j > Len(sc) THEN [st |-> st, log |-> log, disp |-> disp, out |-> [k |-> "fallthrough"]]
-  ELSE LET c == EvalCall(st, sc[j]) IN
+  ELSE LET c == EvalCallOn(st, sc[j], onOrig) IN
        IF c.out.k = "panic" THEN [st |-> c.st, log |-> log \o c.log, disp |-> disp \o c.disp, out |-> c.out]
-       ELSE RunScript(c.st, sc, j + 1, (log \o c.log) \o <<[e |-> "ret", m |-> sc[j].m, id |-> c.out.id]>>, disp \o c.disp)
+       ELSE RunScript(c.st, sc, j + 1, (log \o c.log) \o <<[e |-> "ret", m |-> sc[j].m, id |-> c.out.id]>>, disp \o c.disp, onOrig)
+EvalCall(st, node) == EvalCallOn(st, node, TRUE)
 
 \* does the call run user code at top level (so that a script is meaningful)?
 RunsUser(st, m, a) == Dispatch(st, m, a).d.k = "run"
@@ -158,7 +163,8 @@ SumTo(f, n) == IF n = 0 THEN 0 ELSE f[n] + SumTo(f, n - 1)
 Unmet(st) == { o \in AllPats(tab) : ~Satisfied(tab[o[1]].pats[o[2]], st.count[o[1]][o[2]]) }
 Dead(st)  == { m \in DOMAIN tab : SumTo(st.count[m], Len(tab[m].pats)) = 0 }
 Verdict(st) ==
-  IF Len(st.reasons) > 0 THEN [k |-> "fail", reasons |-> st.reasons, lines |-> {}, never |-> {}]
+  IF ~HasStd /\ st.origp THEN [k |-> "silent", reasons |-> <<>>, lines |-> {}, never |-> {}]   \* no_std: verification disabled
+  ELSE IF Len(st.reasons) > 0 THEN [k |-> "fail", reasons |-> st.reasons, lines |-> {}, never |-> {}]
   ELSE IF Unmet(st) = {} /\ Dead(st) = {} THEN [k |-> "silent", reasons |-> <<>>, lines |-> {}, never |-> {}]
   ELSE [k |-> "fail", reasons |-> <<>>,
         lines |-> { [m |-> o[1], li |-> tab[o[1]].pats[o[2]].li, pi |-> tab[o[1]].pats[o[2]].pi,
@@ -170,20 +176,29 @@ Verdict(st) ==
 (***************************************************************************)
 (* Actions                                                                 *)
 (***************************************************************************)
+\* the values every variable takes when a mock is constructed from configuration c
+InitVals(c) ==
+  LET a == Assemble(c.leaves, HasMutexApi) IN
+  [cfg |-> c,
+   tab |-> IF a.err.k = "ok" THEN a.tab ELSE EmptyTab,
+   newErr |-> a.err,
+   phase |-> IF a.err.k = "ok" THEN "run" ELSE "newerr",
+   count |-> IF a.err.k = "ok" THEN Zero(a.tab) ELSE EmptyTab]
 InitWith(c) ==
-  /\ cfg = c
-  /\ LET a == Assemble(c.leaves, HasMutexApi) IN
-       /\ tab = (IF a.err.k = "ok" THEN a.tab ELSE EmptyTab)
-       /\ newErr = a.err
-       /\ phase = (IF a.err.k = "ok" THEN "run" ELSE "newerr")
-       /\ count = (IF a.err.k = "ok" THEN Zero(a.tab) ELSE EmptyTab)
-  /\ ordIdx = 0 /\ taken = {} /\ reasons = <<>> /\ hist = <<>> /\ ncalls = 0
+  LET v == InitVals(c) IN
+  /\ cfg = v.cfg /\ tab = v.tab /\ newErr = v.newErr /\ phase = v.phase /\ count = v.count
+  /\ ordIdx = 0 /\ taken = {} /\ reasons = <<>> /\ origp = FALSE /\ hist = <<>> /\ ncalls = 0
+\* the same as an action (a new mock replaces the current one): used by the trace specification
+Construct(c) ==
+  LET v == InitVals(c) IN
+  /\ cfg' = v.cfg /\ tab' = v.tab /\ newErr' = v.newErr /\ phase' = v.phase /\ count' = v.count
+  /\ ordIdx' = 0 /\ taken' = {} /\ reasons' = <<>> /\ origp' = FALSE /\ hist' = <<>> /\ ncalls' = 0
 
 Call(node) ==
   /\ phase = "run" /\ ncalls < MaxCalls
   /\ (node.sc # <<>> \/ node.up) => RunsUser(state, node.m, node.a)
   /\ LET r == EvalCall(state, node) IN
-       /\ count' = r.st.count /\ ordIdx' = r.st.ordIdx /\ taken' = r.st.taken /\ reasons' = r.st.reasons
+       /\ count' = r.st.count /\ ordIdx' = r.st.ordIdx /\ taken' = r.st.taken /\ reasons' = r.st.reasons /\ origp' = r.st.origp
        /\ hist' = Append(hist, [op |-> "call", node |-> node, log |-> r.log, out |-> r.out, disp |-> r.disp])
   /\ ncalls' = ncalls + 1
   /\ UNCHANGED <<cfg, tab, newErr, phase>>
@@ -191,7 +206,7 @@ Call(node) ==
 Finish(via) ==
   /\ phase = "run" /\ phase' = "done"
   /\ hist' = Append(hist, [op |-> "finish", via |-> via, v |-> Verdict(state)])
-  /\ UNCHANGED <<cfg, tab, newErr, count, ordIdx, taken, reasons, ncalls>>
+  /\ UNCHANGED <<cfg, tab, newErr, count, ordIdx, taken, reasons, origp, ncalls>>
 
 (***************************************************************************)
 (* Property-shaped invariants, evaluated on every reachable state.         *)
@@ -270,7 +285,7 @@ ErrorsRemembered ==
 
 \* C03: verdict iff; one line per unmet expectation / never-called method, none for satisfied ones
 VerdictIff ==
-  (phase = "done" /\ hist[Len(hist)].v.reasons = <<>>) =>
+  (phase = "done" /\ hist[Len(hist)].v.reasons = <<>> /\ reasons = <<>>) =>
      LET v == hist[Len(hist)].v IN
      /\ (v.k = "fail") <=> (\E o \in AllPats(tab) :
                                LET e == Expect(Norm(tab[o[1]].pats[o[2]].form, tab[o[1]].pats[o[2]].chain))
